@@ -1,0 +1,87 @@
+//go:build verif
+// +build verif
+
+package txmgr
+
+// Read-only dumps of the pending-side buckets for the verification harness (/verif, properties
+// C09 and C10). Add-only; compiled only with the build tag "verif".
+
+import (
+	"encoding/binary"
+
+	"github.com/massnetorg/mass-core/wire"
+	mwdb "massnet.org/mass-wallet/masswallet/db"
+)
+
+// VerifUnminedCredits lists the keys (outpoints) of bucket "mc".
+func (s *UtxoStore) VerifUnminedCredits(tx mwdb.ReadTransaction) []wire.OutPoint {
+	var res []wire.OutPoint
+	it := tx.FetchBucket(s.bucketMeta.nsUnminedCredits).NewIterator(nil)
+	defer it.Release()
+	for it.Next() {
+		k := it.Key()
+		if len(k) != 36 {
+			continue
+		}
+		var op wire.OutPoint
+		copy(op.Hash[:], k[0:32])
+		op.Index = binary.BigEndian.Uint32(k[32:36])
+		res = append(res, op)
+	}
+	return res
+}
+
+// VerifUnminedInputs lists bucket "mi": outpoint -> hashes of the registered spenders, in stored order.
+func (s *UtxoStore) VerifUnminedInputs(tx mwdb.ReadTransaction) map[wire.OutPoint][]wire.Hash {
+	res := map[wire.OutPoint][]wire.Hash{}
+	it := tx.FetchBucket(s.bucketMeta.nsUnminedInputs).NewIterator(nil)
+	defer it.Release()
+	for it.Next() {
+		k, v := it.Key(), it.Value()
+		if len(k) != 36 {
+			continue
+		}
+		var op wire.OutPoint
+		copy(op.Hash[:], k[0:32])
+		op.Index = binary.BigEndian.Uint32(k[32:36])
+		var l []wire.Hash
+		for len(v) >= 32 {
+			var h wire.Hash
+			copy(h[:], v[:32])
+			l = append(l, h)
+			v = v[32:]
+		}
+		res[op] = l
+	}
+	return res
+}
+
+// VerifGameRow is one key of the deposit-history buckets "lg" (mined) / "LG" (unmined).
+type VerifGameRow struct {
+	WalletId  string
+	IsBinding bool
+	Withdrawn bool
+	TxHash    wire.Hash
+	Height    uint64
+	Vout      uint32
+}
+
+// VerifGameRows lists the keys of the mined or unmined deposit-history bucket.
+func (s *TxStore) VerifGameRows(tx mwdb.ReadTransaction, unmined bool) []VerifGameRow {
+	meta := s.bucketMeta.nsGameHistory
+	if unmined {
+		meta = s.bucketMeta.nsUnminedGameHistory
+	}
+	var res []VerifGameRow
+	it := tx.FetchBucket(meta).NewIterator(nil)
+	defer it.Release()
+	for it.Next() {
+		var h gameHistory
+		if err := readGameHistory(unmined, it.Key(), it.Value(), &h); err != nil {
+			continue
+		}
+		res = append(res, VerifGameRow{WalletId: h.walletId, IsBinding: h.isBinding, Withdrawn: h.withdrawn,
+			TxHash: h.txhash, Height: h.blockHeight, Vout: h.vout})
+	}
+	return res
+}
